@@ -245,7 +245,7 @@ func TestRegressEnumerate(t *testing.T) {
 	// rejected controllers
 	type s struct{}
 	n := 5
-	for i, bad := range []any{s{}, &n, new(string), new(*s), &[]int{1}} {
+	for i, bad := range []any{s{}, &n, new(string), new(*s), &[]int{1}, []s{{}}, [1]s{}, map[string]s{}, make(chan s), sliceCtl{}, mapCtl{}, C001{}, func() {}, "x", 7} {
 		func() {
 			defer func() {
 				if recover() == nil {
@@ -256,6 +256,15 @@ func TestRegressEnumerate(t *testing.T) {
 		}()
 	}
 }
+
+// named non-struct types that carry action methods: still not "pointer to struct"
+type sliceCtl []base
+
+func (sliceCtl) Index(ctx *rux.Context) { ctx.WriteString("index") }
+
+type mapCtl map[string]base
+
+func (mapCtl) Show(ctx *rux.Context) { ctx.WriteString("show") }
 
 func prop(t *rapid.T) {
 	ev.Case()
